@@ -36,9 +36,11 @@ class TocRenderer(HtmlRenderer):
         Returns table of contents as a block_token.List instance.
         """
         def get_indent(level):
-            if self.omit_title:
-                level -= 1
-            return ' ' * 4 * (level - 1)
+            # relative to the highest level that was collected: the document need not
+            # have a level-1 heading (or a level-2 heading, if the title is left out)
+            return ' ' * 4 * (level - top_level)
+
+        top_level = min((level for level, _ in self._headings), default=1)
 
         def build_list_item(heading):
             level, content = heading
